@@ -527,6 +527,106 @@ inline void promise_history(const vf::opts &o, vf::report &R, uint64_t histories
 }
 
 // ---------------------------------------------------------------------------------------------
+// promises whose DESTRUCTION carries a payload (promise_with_default / _v / _vp): the destruction of an armed promise is a
+// resolver like any other - the future it points to gets exactly the default that was given together with THAT promise, also after
+// the promise object was moved or move-assigned; an explicit call before the destruction wins and the default leaves no trace.
+inline int g_pdef_const = 4242;
+template <typename P, typename DP> void promise_default_history_t(const vf::opts &o, vf::report &R, uint64_t hn, vf::rng &r, const char *flavour) {
+    constexpr int NF = 5, NS = 4;
+    constexpr bool PER_OBJECT = std::is_same_v<DP, cocls::promise_with_default<P>>;
+    long live0 = tracked::live.load(), bad0 = tracked::bad.load();
+    std::unique_ptr<cocls::future<P>> fut[NF];
+    outcome model[NF]; bool lenient[NF];  // lenient: future whose promise was overwritten by a move assignment (no-value or the old default are both accepted)
+    uint64_t lenient_def[NF];
+    std::optional<DP> slot[NS];
+    int owner[NS]; uint64_t def[NS];      // future the promise in the slot points to, default value carried by that promise
+    for (int i = 0; i < NS; i++) { owner[i] = -1; def[i] = 0; }
+    for (int i = 0; i < NF; i++) { lenient[i] = false; lenient_def[i] = 0; }
+    int nf = 0; std::string trace, err;
+    int len = 3 + (int)r.below(14);
+    auto fixed_def = [&](uint64_t d) -> uint64_t { if constexpr (PER_OBJECT) return d; else if constexpr (std::is_same_v<DP, cocls::promise_with_default_v<int, 77>>) return 77; else return 4242; };
+    auto by_destruction = [&](int s) { if (owner[s] >= 0) { model[owner[s]].state = PS_VALUE; model[owner[s]].val = fixed_def(def[s]); owner[s] = -1; } };
+    auto overwritten = [&](int s) { if (owner[s] >= 0) { lenient[owner[s]] = true; lenient_def[owner[s]] = fixed_def(def[s]); model[owner[s]].state = PS_CANCELED; owner[s] = -1; } };
+    auto check = [&](const char *after) {
+        for (int f = 0; f < nf && err.empty(); f++) {
+            outcome got; got.state = PS_PENDING;
+            if (fut[f]->ready()) got = read_future(*fut[f], nullptr, 0);
+            if (got == model[f]) continue;
+            if (lenient[f] && got.state == PS_VALUE && got.val == lenient_def[f]) continue;
+            err = std::string("after ") + after + ": future #" + std::to_string(f) + " is " + got.str() + ", expected " + model[f].str();
+        }
+        for (int i = 0; i < NS && err.empty(); i++) if (slot[i]) {
+            bool valid = (bool)*slot[i];
+            if (valid != (owner[i] >= 0)) err = std::string("after ") + after + ": promise in slot " + std::to_string(i) + (valid ? " is armed" : " is empty") + " but the model says the opposite";
+        }
+    };
+    auto make = [&](int f, uint64_t d) -> DP { if constexpr (PER_OBJECT) return DP(fut[f]->get_promise(), P(d)); else { (void)d; return DP(fut[f]->get_promise()); } };
+    for (int step = 0; step < len && err.empty(); step++) {
+        uint32_t x = r.below(100);
+        int a = (int)r.below(NS), b = (int)r.below(NS);
+        if (x < 25 && nf < NF) { // new future; its promise (with default 1000+step) is move-constructed into / move-assigned to slot a
+            uint64_t d = 1000 + (uint64_t)step;
+            trace += "new(def " + std::to_string(fixed_def(d)) + ")->s" + std::to_string(a) + " ";
+            fut[nf] = std::make_unique<cocls::future<P>>();
+            if (slot[a]) { overwritten(a); *slot[a] = make(nf, d); } else slot[a].emplace(make(nf, d));
+            owner[a] = nf; def[a] = d; model[nf].state = PS_PENDING; nf++;
+        } else if (x < 45 && slot[a] && slot[b] && a != b) { // move-assign: the default travels with the promise
+            trace += "s" + std::to_string(a) + "=move(s" + std::to_string(b) + ") ";
+            overwritten(a);
+            *slot[a] = std::move(*slot[b]);
+            owner[a] = owner[b]; def[a] = def[b]; owner[b] = -1;
+        } else if (x < 55 && slot[b] && !slot[a]) { // move-construct
+            trace += "s" + std::to_string(a) + "(move(s" + std::to_string(b) + ")) ";
+            slot[a].emplace(std::move(*slot[b]));
+            owner[a] = owner[b]; def[a] = def[b]; owner[b] = -1;
+        } else if (x < 70 && slot[a]) { // explicit call: wins over the default
+            int how = (int)r.below(3);
+            trace += std::string("s") + std::to_string(a) + (how == 0 ? "(value) " : how == 1 ? "(exception) " : "(drop) ");
+            bool ok = how == 0 ? (bool)(*slot[a])(500 + step) : how == 1 ? (bool)(*slot[a])(vf::make_exc(600 + step)) : (bool)(*slot[a])(cocls::drop);
+            if (ok != (owner[a] >= 0)) err = std::string("call reported ") + (ok ? "success" : "failure") + " on " + (owner[a] >= 0 ? "an armed" : "an empty") + " promise";
+            if (owner[a] >= 0) {
+                outcome &m = model[owner[a]];
+                if (how == 0) { m.state = PS_VALUE; m.val = 500 + (uint64_t)step; } else if (how == 1) { m.state = PS_EXC; m.code = 600 + step; } else m.state = PS_CANCELED;
+                owner[a] = -1;
+            }
+        } else if (x < 92 && slot[a]) { // destroy the promise object: the default is the payload
+            trace += "~s" + std::to_string(a) + " ";
+            by_destruction(a); slot[a].reset();
+        } else continue;
+        check(trace.c_str());
+    }
+    for (int i = 0; i < NS; i++) if (slot[i]) { by_destruction(i); slot[i].reset(); }
+    trace += "~all ";
+    if (err.empty()) check("destruction of all promises");
+    R.cases++;
+    if (!err.empty()) {
+        R.violation(std::string("monitor:resolution|promise_default_history/") + flavour, err, vf::jobj().kv("history", (unsigned long long)hn).kv("seed", (unsigned long long)o.seed).kv("promise_type", flavour).kv("ops", trace).kv("disagreement", err).str());
+        for (int f = 0; f < nf; f++) (void)fut[f].release();
+        return;
+    }
+    for (int f = 0; f < nf; f++) fut[f].reset();
+    if (tracked::live.load() != live0 || tracked::bad.load() != bad0) {
+        R.violation(std::string("monitor:payload_balance|promise_default_history/") + flavour, "default / stored values not destroyed exactly once, or a destroyed / moved-from default read", vf::jobj().kv("history", (unsigned long long)hn).kv("ops", trace).kv("live_delta", (long long)(tracked::live.load() - live0)).kv("bad_delta", (long long)(tracked::bad.load() - bad0)).str());
+        return;
+    }
+    if (len >= 4) { R.nontrivial_cases++; R.sig(std::string(flavour) + " " + trace); }
+    if (R.samples.size() < 2 && len > 8) R.sample(vf::jobj().kv("promise_type", flavour).kv("ops", trace).kv("result", "every future got the default given with the promise that was destroyed holding it, or the explicit call's payload").str());
+}
+inline void promise_default_history(const vf::opts &o, vf::report &R, uint64_t histories) {
+    vf::rng master(vf::mix(o.seed, 0x103));
+    for (uint64_t hn = 0; hn < histories && R.nviol() < 5; hn++) {
+        vf::rng r(master.next());
+        vf::set_crash_ctx(R.prop.c_str(), "promise_default_history", o.seed, hn);
+        switch (hn % 4) {
+        case 0: promise_default_history_t<vf::tracked, cocls::promise_with_default<vf::tracked>>(o, R, hn, r, "promise_with_default<counted>"); break;
+        case 1: promise_default_history_t<int, cocls::promise_with_default<int>>(o, R, hn, r, "promise_with_default<int>"); break;
+        case 2: promise_default_history_t<int, cocls::promise_with_default_v<int, 77>>(o, R, hn, r, "promise_with_default_v<int,77>"); break;
+        default: promise_default_history_t<int, cocls::promise_with_default_vp<int, &g_pdef_const>>(o, R, hn, r, "promise_with_default_vp<int,&c>"); break;
+        }
+    }
+}
+
+// ---------------------------------------------------------------------------------------------
 // ONE registered callback awaiter object used for a sequence of futures (the way call_fn_future_awaiter / future_conv objects are
 // reused): for every future - found already resolved at registration, or resolved later - the awaiter is released exactly once,
 // with the complete result of THAT future, and the future stays resolved.
